@@ -45,10 +45,12 @@ class Path:
     raised: Optional[str] = None
     end: Optional[ast.AST] = None
     lits: Dict[str, ast.AST] = field(default_factory=dict)  # locals bound to a list/dict display and extended in place since
+    alias: Dict[str, ast.AST] = field(default_factory=dict)  # local -> `other_local(.attr)*` it was bound to (same object or a view of it)
 
     def fork(self) -> "Path":
         q = Path(self.conds, dict(self.env), dict(self.stores), dict(self.named_stores), dict(self.origin), list(self.calls), self.ret, self.raised, self.end)
         q.lits = {k: clone_ast(v) for k, v in self.lits.items()}
+        q.alias = dict(self.alias)
         return q
 
     def has(self, text_pol) -> bool:
@@ -242,6 +244,7 @@ class PathEval:
         """paths through the function body, or through the given statement list
         (e.g. the body of a loop: break/continue then end a path)"""
         p = Path(env=dict(self.bindings))
+        p.alias = dict(getattr(self, "init_alias", {}) or {})
         body = self.func.body if body is None else body
         body = [s for s in body if not (isinstance(s, ast.Expr) and isinstance(s.value, ast.Constant))]
         for st in self.block(body, [p]):
@@ -329,6 +332,13 @@ class PathEval:
             for t in s.targets:
                 self.assign(t, v, p)
                 if isinstance(t, ast.Name):
+                    al = self._alias_of(s.value, p)
+                    if al is not None and t.id not in {n.id for n in ast.walk(al) if isinstance(n, ast.Name)}:
+                        p.alias[t.id] = al
+                    else:
+                        p.alias.pop(t.id, None)
+                    for k_ in [k_ for k_, a_ in p.alias.items() if k_ != t.id and any(isinstance(n, ast.Name) and n.id == t.id for n in ast.walk(a_))]:
+                        p.alias.pop(k_, None)  # the name an alias refers to was re-bound
                     if isinstance(s.value, (ast.List, ast.Dict)) and len(s.targets) == 1:
                         p.lits[t.id] = clone_ast(v)
                     else:
@@ -549,9 +559,48 @@ class PathEval:
             p.named_stores[rk] = v
             p.origin[rk] = getattr(self, "_cur", None)
 
+    def _alias_of(self, e, p: Path):
+        """`b`, `b.attr`, `b.attr if <decided test> else b`: the same object as (an
+        indexer / view of) the local b"""
+        if isinstance(e, ast.IfExp):
+            f_ = fold(self.sub(e.test, p.fork()))
+            if f_ is True:
+                return self._alias_of(e.body, p)
+            if f_ is False:
+                return self._alias_of(e.orelse, p)
+            return None
+        cur = e
+        while isinstance(cur, ast.Attribute):
+            cur = cur.value
+        if isinstance(cur, ast.Name) and cur.id != "self" and isinstance(e, (ast.Name, ast.Attribute)):
+            x = clone_ast(e)
+            # follow an alias of an alias
+            root = x
+            while isinstance(root, ast.Attribute) and isinstance(root.value, ast.Attribute):
+                root = root.value
+            base = cur.id
+            if base in p.alias:
+                repl = clone_ast(p.alias[base])
+                if isinstance(x, ast.Name):
+                    return repl
+                root2 = x
+                while isinstance(root2.value, ast.Attribute):
+                    root2 = root2.value
+                root2.value = repl
+            return x
+        return None
+
     def raw_key(self, t, p: Path) -> str:
-        """target text with indices substituted but the root variable kept"""
+        """target text with indices substituted but the root variable kept (an
+        alias of another local is replaced by that local)"""
         x = _as_load(t)
+        if p.alias:
+            holder = x
+            parent = None
+            while isinstance(holder, (ast.Subscript, ast.Attribute)):
+                parent, holder = holder, holder.value
+            if isinstance(holder, ast.Name) and holder.id in p.alias and parent is not None:
+                parent.value = clone_ast(p.alias[holder.id])
         chain = []
         cur = x
         while isinstance(cur, (ast.Subscript, ast.Attribute)):
